@@ -187,3 +187,15 @@ package txnsnapshot
 //@   opaque-callee RecordRPCRuntimeStats
 //@   at call(Put#1) assert ignored: recv == ch.resolvedLocks && arg0 == resolvedLocks
 //@   at call(Put#2) assert readthrough: recv == ch.committedLocks && arg0 == committedLocks
+
+// Splitting the keys of one region into batches by size: the batches are consecutive slices of the key list - each starts
+// where the previous one ended, none is empty, the last one ends at the end of the list - so every key is in exactly one
+// batch and in its original order; every batch carries the region given.
+//@ func appendBatchKeysBySize
+//@   prop C05
+//@   may-panic
+//@   requires positive: limit > 0
+//@   loop 1 invariant outer: 0 <= start && start <= len(keys) && len(b) >= old(len(b))
+//@   loop 2 invariant inner: start <= end && end <= len(keys) && (end == start ==> size == 0) && start < len(keys)
+//@   at call(append:b) assert slice: arg1[0].region == region && start < len(keys)
+//@   loop 1 step next: start > prev(start) && len(b) == prev(len(b)) + 1
